@@ -217,4 +217,34 @@ def check(report: Report, repo: Repo) -> None:
         report.floor("parameters followed through unit_scale", n_par, 6)
     except Unsupported as ex:
         report.add("R4-transforms", cons, None, f"outside fragment: {ex}")
+    # no library transform converts, freezes or un-freezes the parameters of the module it returns: the only
+    # methods it may call on its working copy are the ones that read it (and `apply` style visitors for unit_scale)
+    MUTATORS = ("float", "half", "double", "bfloat16", "to", "type", "requires_grad_", "cuda", "cpu", "to_empty", "zero_grad", "train", "eval", "share_memory", "xpu", "ipu")
+    SF_, TS_ = "unit_scaling/transforms/_simulate_format.py", "unit_scaling/transforms/_track_scales.py"
+    it_m = Interp(repo)
+    fcls = it_m.get_global("unit_scaling/formats.py", "FPFormat")
+    f1_, f2_ = it_m.call_function(fcls, [4, 3], {}), it_m.call_function(fcls, [5, 2], {})
+    entries = [
+        ("unit_scale", lambda m_: it_m.call_function(it_m.get_global(US, "unit_scale"), [m_], {})),
+        ("simulate_format", lambda m_: it_m.call_function(it_m.get_global(SF_, "simulate_format"), [m_, f1_, f2_], {})),
+        ("simulate_fp8", lambda m_: it_m.call_function(it_m.get_global(SF_, "simulate_fp8"), [m_], {})),
+        ("track_scales", lambda m_: it_m.call_function(it_m.get_global(TS_, "track_scales"), [m_], {})),
+    ]
+    for ename, run_ in entries:
+        cons = f"transforms::{ename}::parameters-untouched"
+        m_in = mkmodule("m")
+        it_m.events = []
+        try:
+            r_ = run_(m_in)
+        except Unsupported as ex:
+            report.add("R4-transforms", cons, None, f"outside fragment: {ex}")
+            continue
+        hits = []
+        for e in it_m.events:
+            if e.kind != "callv":
+                continue
+            ct = TM.term_of(e["callee"])
+            if isinstance(ct, T) and ct.op == "attr" and ct.args[1] in MUTATORS and isinstance(ct.args[0], T) and ct.args[0].op in ("obj", "copy", "call"):
+                hits.append(f"{ct.args[1]}({', '.join(fmt(a_) for a_ in e['args'])})")
+        report.add("R4-transforms", cons, not hits, f"{ename}() does not convert the dtype / device or change the trainability of the parameters of the module it returns", hits, [], nontrivial=False)
     report.floor("producers analysed", 3, 3)
